@@ -9,9 +9,11 @@
 //	    shard = (configuration, first operation), each running vlib.BFS below its prefix;
 //	(B) schedule engine (sched.go):   vx scenarios, 3 threads Allow→Pass|Fail and 2–3 simultaneous
 //	    arrivals under the controlled scheduler, conservation + "no shed while the CPU is never
-//	    over" + "not all shed when nothing was in flight";
+//	    over" + "not all shed when nothing was in flight"; (group.go): 2–4 threads making the first
+//	    calls on keys of one ShedderGroup at once, per-key conservation / shed over capacity /
+//	    independence of keys through every handle the group gave out;
 //	(C) wrappers        (wrappers.go): rest SheddingHandler and zrpc UnarySheddingInterceptor
-//	    enumerated sequentially with a counting fake Shedder/Promise.
+//	    enumerated sequentially with a counting fake Shedder/Promise and on a real keyed shedder.
 package main
 
 import (
@@ -394,8 +396,8 @@ func histPrepass(cfg *vlib.Config, r *vlib.Report) {
 }
 
 const rule = "(A) explicit-state BFS per (window,buckets) configuration (two CPU-threshold families: overload factor pinned to 1 and to 0.1) over histories of Allow(cpu over|under) / Pass|Fail(oldest|newest) / Allow×k / PassAll / FailAll / churn×k (k × oldest ends by Pass|Fail, a new request is admitted) / time jumps on the real adaptive shedder (fresh shedder + replay per transition; sharded by first operation; a state is distinct by white-box dump ⊕ reference state, counted non-trivial when some Allow in its history was decided with the overload branch active (cpu over or cool-off) and requests in flight; in the load.Disable() lane every state); " +
-	"(B) every interleaving up to the preemption bound of 3 threads Allow→Pass|Fail on a pre-loaded shedder, and of 2–3 threads calling Allow at once on a shedder with nothing in flight, the moving average above the capacity estimate and the CPU over (distinct by scenario + observed admit/shed shape); " +
-	"(C) every handler outcome of SheddingHandler (status 100..599, no write, panics) and UnarySheddingInterceptor (nil, errors, every gRPC code, panic) against a counting fake Shedder/Promise (distinct by wrapper + outcome)"
+	"(B) every interleaving up to the preemption bound of 3 threads Allow→Pass|Fail on a pre-loaded shedder, of 2–3 threads calling Allow at once on a shedder with nothing in flight, the moving average above the capacity estimate and the CPU over (distinct by scenario + observed admit/shed shape), and of 2–4 threads making the FIRST calls on keys of one ShedderGroup at once (GetShedder alone | GetShedder.Allow held | GetShedder.Allow→Pass|Fail; same key, two keys; a scheduling point inside the construction of a keyed shedder), followed by a fixed sequential follow-up through the handles they were given: per-key conservation, shed when the key is over capacity, keys independent (distinct by scenario + who built a shedder + order in which the lookups returned); " +
+	"(C) every handler outcome of SheddingHandler (status 100..599, no write, panics) and UnarySheddingInterceptor (nil, errors, every gRPC code, panic) against a counting fake Shedder/Promise, and a subset of outcomes on a REAL keyed shedder (idle | over capacity) × CPU (under | over) incl. the package's own CPU check at thresholds that fix its answer (distinct by wrapper + state + outcome)"
 
 func silence() {
 	logx.Disable()
@@ -448,7 +450,7 @@ func main() {
 	if strings.HasPrefix(cfg.Shard, "hist|") {
 		vlib.RunShards(r, nil, histShard(enabledShards)) // worker mode: runs the shard and exits
 	}
-	if cfg.Shard == "" { // parent process: history engine and wrappers first, then the schedule shards
+	if cfg.Shard == "" && os.Getenv("VERIF_C02_ONLY") == "" { // parent process: history engine and wrappers first, then the schedule shards
 		r.Assume("the CPU answer is injected per Allow through load.systemOverloadChecker; stat.CpuUsage() (overload factor) is real and bracketed in [0.1,1]; shedders are built WithCpuThreshold(999) so that the factor is 1 for every usage value core/stat can report, or (configurations *-deep) WithCpuThreshold(-9000) so that it is 0.1 for every usage value (usage is in [0,1000]): the CPU reading far above the threshold")
 		r.Assume("capacity estimate with no pass in the window: 1 pass/bucket × 1000 ms (the package's documented default); violations that depend on it carry the class suffix :empty-window")
 		r.Assume("core/syncx/spinlock.go is replaced (overlay only) by a blocking-lock model of the same API: spin-waiting is stutter-equivalent to blocking; with the mechanically rewritten spin loop the bounded schedule search does not terminate (free Yield alternatives)")
@@ -489,6 +491,9 @@ func main() {
 		t1 := time.Now()
 		runWrappers(r)
 		r.SetExtra("wrappers_wall_s", time.Since(t1).Seconds())
+	}
+	if cfg.Shard == "" && os.Getenv("VERIF_C02_ONLY") == "wrappers" { // experiments only
+		runWrappers(r)
 	}
 	vx.Main(cfg, r, scenarios(cfg), quickBounds, thoroughBounds, rule)
 }
